@@ -147,12 +147,12 @@ def exhaustive_enums(ctx):
 
 def gen_cases(ctx):
     g = enumgen.EnumGen(ctx.rng)
-    ens = []
+    ens = [en for en, _ in enumgen.load_corpus(PROP)]
     for f in SHAPED:
         ens.append(g.enum("wf", f))
     for sh in REGION_SHAPES:
         ens.append(g.enum(sh))
-    n = ctx.n(100, 2000)
+    n = ctx.n(100, 2000) + len(enumgen.load_corpus(PROP))
     while len(ens) < n:
         r = ctx.rng.random()
         sh = "wf" if r < 0.9 else ctx.rng.choice(["neg", "big", "dupval", "dupname", "typedexpr"])
@@ -185,7 +185,11 @@ def run_cases(ctx, cases, name="mod"):
             im["compile"] = "ok" if r["compile"] == "ok" else "error"
             obs = dict(r["obs"])
             d = obs.pop("decl", None)
-            if r["compile"] == "ok":
+            if r["compile"] == "ok" and ("panic" in obs or (d is None and not obs)):
+                # a recovered panic, or the oracle process died (e.g. unbounded recursion in String()); when more than a
+                # handful of cases kill the process the batch runner gives up and the rest stay unobserved
+                im["panic"] = obs.get("panic", "no observation: the oracle process kept dying")
+            elif r["compile"] == "ok":
                 want = ",".join("%s=%d" % (n, v) for n, v in c["decl"])
                 if d != want:
                     raise core.InfraError("harness evaluation of the const blocks disagrees with the compiler for %s: %s vs %s" % (
@@ -230,6 +234,7 @@ def run(ctx, obl):
                 if c["id"] == cid:
                     v.setdefault("detail", c.get("detail"))
                     v.setdefault("sources", c["files"])
+                    v.setdefault("enum", c["en"])
     res.rule = ("enums generated from the spec grammar (10 integer kinds; iota / shifted / offset / scaled / explicit decimal+hex / multi-name / "
                 "carried-down specs; `_` placeholders; 1-3 const blocks in 1-3 files, parenthesised or not; prefixed, unprefixed, lower-cased and "
                 "accidentally prefixed names; other-type and untyped distractor specs), one shaped case per feature and kind, shaped cases for every "
@@ -246,18 +251,24 @@ def run(ctx, obl):
 
 
 def replay(ctx, payload):
-    from vlib import sexp
+    """re-run the recorded enum (fresh probes / stale variants from the recorded seed) and print the three line sets"""
     core.lean_build(LEAN_MODULES + [DRIVER])
-    case = payload.get("case")
-    print(case)
-    if payload.get("sources"):
-        for fn, src in payload["sources"].items():
-            print("---- %s\n%s" % (fn, src))
-    model = core.model_run(ctx, [case])
-    cid = sexp.parse(case)[1]
-    m = model.get(cid, {})
-    print("impl (recorded):", payload.get("impl"))
-    print("model:", m.get("model"))
-    print("spec :", m.get("spec"))
-    print("region:", m.get("region"))
-    return 0 if all((payload.get("impl") or {}).get(k) == v for k, v in (m.get("spec") or {}).items()) else 1
+    en = payload.get("enum")
+    if not en:
+        print(payload.get("case") or payload)
+        return 0
+    c = make_case(ctx, "replay", en)
+    for fn, src in c["files"].items():
+        print("---- %s\n%s" % (fn, src))
+    print(c["sexp"])
+    impl, model = run_cases(ctx, [c])
+    m = model["replay"]
+    print("cmd   :", c["cmd"], c.get("detail"))
+    print("region:", m["region"])
+    print("impl  :", impl["replay"])
+    print("model :", m["model"])
+    print("spec  :", m["spec"])
+    if m["region"] == "Out":
+        return 0
+    ref = m["model"] if m["region"].startswith("F_") else m["spec"]          # a finding region is expected to differ from spec
+    return 0 if all(impl["replay"].get(k) == v for k, v in ref.items()) else 1
